@@ -365,6 +365,7 @@ def rule_sasview_entry(r):
 
 from . import extra3 as _x3
 RULES = [
+    ("R-C10-hidden-cases", 1, "hidden(control) changes at the case boundaries of the C source", _x3.rule_c10_hidden),
     ("R-C10-data", 6, "data objects: mask polarity and default limits", rule_data),
     ("R-C10-sasview-entry", 9, "SasView entry points route (qx, qy) and hidden parameters correctly", rule_sasview_entry),
     ("R-C10-inactive", 9, "inactive distributions agree across interfaces", rule_inactive),
